@@ -241,6 +241,14 @@ func (w *World) AbsState(p *Party) M {
 			}
 		}
 	}
+	if aenc == -1 {
+		if id, ok := w.EvilCommits[string(s.AKE.EncryptedGx)]; ok {
+			aenc = id
+			if ahash == -1 && bytes.Equal(ref.SHA256(ref.PutMPI(nil, w.EvilValues[id])), s.AKE.HashedGx) {
+				ahash = id
+			}
+		}
+	}
 	st["aenc"], st["ahash"] = aenc, ahash
 	st["akid"], st["atid"] = int(s.AKE.OurKeyID), int(s.AKE.TheirKeyID)
 	st["oid"], st["tid"] = int(s.OurKeyID), int(s.TheirKeyID)
